@@ -144,7 +144,7 @@ def _prepare(scratch, M, L=None):
 # ================================================================================================ fuzz driver
 
 ASAN_OPTS = ("detect_leaks=1:halt_on_error=1:abort_on_error=0:symbolize=1:allocator_may_return_null=1:exitcode=77:"
-             "malloc_context_size=3:max_allocation_size_mb=1024:detect_stack_use_after_return=0")
+             "malloc_context_size=3:max_allocation_size_mb=256:detect_stack_use_after_return=0")
 
 _UB_KINDS = [
     (r"is outside the range of representable values of type", "float-cast-overflow"),
@@ -187,7 +187,7 @@ def san_signature(kind, text):
         fn, path = m.group(2), m.group(3)
         if "/compiler-rt/" in path or "/include/c++/" in path or "/sysdeps/" in path or path.startswith("/usr/"):
             continue
-        fn = re.sub(r"\(.*", "", re.sub(r"<.*?>", "", fn)).split("::")[-1][:48] if "lambda" not in fn and "$_" not in fn else "lambda"
+        fn = "::".join(re.sub(r"\(.*", "", re.sub(r"<.*?>", "", fn)).split("::")[-2:])[:60] if "lambda" not in fn and "$_" not in fn else "lambda"
         if "/native/shim/" in path:
             if first:
                 where, loc = "shim", "shim/%s:%s" % (path.split("/")[-1], fn)
@@ -228,7 +228,7 @@ def _dump_input(exe, flavour, lists, seed, index, scratch):
 
 def _run_batch(job):
     """one (flavour, seed, start, count) batch with resume after every abnormal termination -> dict"""
-    exe, flavour, lists, seed, start, count, scratch, per_input_timeout = job
+    exe, flavour, lists, seed, start, count, scratch, per_input_timeout, exe_dump = job
     res = dict(job=[flavour, seed, start, count], summary={}, classes={}, msgs={}, events=[], resumes=0, unfinished=0)
     pos, end = start, start + count
     env = {"ASAN_OPTIONS": ASAN_OPTS} if flavour == "asan" else None
@@ -290,7 +290,7 @@ def _run_batch(job):
     # attach the input bytes to every attributable event
     for e in res["events"]:
         if e.get("index") is not None and e["type"] in ("contract", "sanitizer", "died", "timeout") and e.get("index", -1) >= 0:
-            data, (api, errsz) = _dump_input(exe, flavour, lists, seed, e["index"], scratch)
+            data, (api, errsz) = _dump_input(exe_dump, flavour, lists, seed, e["index"], scratch)
             e["input_b64"] = base64.b64encode(data[:262144]).decode()
             e["api"], e["errsz"] = api, errsz
     return res
@@ -350,7 +350,7 @@ def _alloc_site(text):
     for line in text.splitlines():
         m = re.match(r"\s*#\d+ (?:0x[0-9a-f]+ in )?(.+?) (/\S+?):\d+", line)
         if m and ("/src/" in m.group(2) or "/plugin/" in m.group(2)) and "/include/c++/" not in m.group(2):
-            fn = re.sub(r"\(.*", "", re.sub(r"<.*?>", "", m.group(1))).split("::")[-1][:48]
+            fn = "::".join(re.sub(r"\(.*", "", re.sub(r"<.*?>", "", m.group(1))).split("::")[-2:])[:60]
             return "%s:%s" % (m.group(2).split("/")[-1], fn)
     return "?"
 
@@ -409,16 +409,16 @@ def _fuzz(ctx, scratch, M):
     info = _prepare(scratch, M, L=True)
     ctx.extra["fuzz_corpus"] = info
     lists = (str(scratch / "seeds.txt"), str(scratch / "dict.txt"))
-    n_asan, n_rel = ctx.pick((4000, 16000), (48000, 400000))
+    n_asan, n_rel = ctx.pick((3000, 17000), (48000, 400000))
     b_asan, b_rel = ctx.pick((250, 2000), (1000, 10000))
     fseed = ctx.seed + 1
     jobs = []
     pos = 0
     while pos < n_asan:
-        jobs.append((exe_a, "asan", lists, fseed, pos, min(b_asan, n_asan - pos), scratch, 30))
+        jobs.append((exe_a, "asan", lists, fseed, pos, min(b_asan, n_asan - pos), scratch, 20, exe_r))
         pos += b_asan
     while pos < n_asan + n_rel:
-        jobs.append((exe_r, "rel", lists, fseed, pos, min(b_rel, n_asan + n_rel - pos), scratch, 30))
+        jobs.append((exe_r, "rel", lists, fseed, pos, min(b_rel, n_asan + n_rel - pos), scratch, 20, exe_r))
         pos += b_rel
     results = nat.pmap(_run_batch, jobs, nthreads=int(os.environ.get("VERIF_C37_THREADS", "8")))
     classes, msgs, unfinished = {}, {}, 0
